@@ -2509,6 +2509,18 @@ class ChannelManager:
             )
             return
 
+        if channel.destination_cid != request.source_cid:
+            # The request names another channel than the one that owns this CID now
+            # (e.g. a channel we no longer have): it is not ours to close.
+            logger.warning(
+                color(
+                    f'disconnection request for {request.destination_cid} with '
+                    f'unexpected source CID {request.source_cid}',
+                    'red',
+                )
+            )
+            return
+
         channel.on_disconnection_request(request)
 
     def on_l2cap_disconnection_response(
